@@ -59,7 +59,30 @@ type C09Plan struct {
 	Second int   `json:"second_kill_permille,omitempty"`
 	Later  int   `json:"later_cycles"`
 	GapS   []int `json:"gap_s"` // clock advance before each later cycle
+	// DownS > 0: that many seconds (days to months) lie between the end of the
+	// first cycle and the pod's next activity: after a pod crash the pod stays
+	// down that long before it is restarted, otherwise it idles (scheduler
+	// off). DownMode "wallstep" applies the same amount as a forward step of the
+	// machine's wall clock instead (NTP correction, VM resume, wrong RTC after a
+	// restore): monotonic time does not move.
+	DownS    int    `json:"down_s,omitempty"`
+	DownMode string `json:"down_mode,omitempty"` // "" (time passes) | wallstep
+	// KillStepS > 0 (kill family): the machine's wall clock is stepped forward
+	// by this many seconds at the moment the targeted job is killed (the kill
+	// and the step have one cause, e.g. a VM that was frozen and resumed), so
+	// the parent handles the dead job with the stepped clock.
+	KillStepS int `json:"kill_step_s,omitempty"`
 }
+
+// longSpan draws a span of days to months (seconds). The values are plain
+// operational magnitudes (a long weekend, a week and a bit, a month, a
+// quarter, a year), not constants of arc.
+func longSpan(r *simrt.Rand) int {
+	days := []int{3, 8, 9, 10, 15, 30, 90, 400}[r.Intn(8)]
+	return days*86400 + r.Intn(86400)
+}
+
+const daySeconds = 86400
 
 func genRows(r *simrt.Rand, nextRid *int64, n int, dupPool *[]RowSpec) []RowSpec {
 	ts := []int64{0, 1, 1_000_000, 60_000_000, 1_800_000_000, 3_599_999_999}
@@ -202,6 +225,17 @@ func genC09(r *simrt.Rand, tier string) any {
 	p.Later = 1 + r.Intn(3)
 	for i := 0; i < p.Later; i++ {
 		p.GapS = append(p.GapS, []int{5, 20, 3700, 7200}[r.Intn(4)])
+	}
+	// long downtime / idle period or wall-clock step after the first cycle
+	downPct := map[string]int{"podcrash": 60, "fserr": 30, "kill": 15, "none": 15}[p.Family]
+	if r.Chance(downPct) {
+		p.DownS = longSpan(r)
+		if r.Chance(30) {
+			p.DownMode = "wallstep"
+		}
+	}
+	if p.Family == "kill" && r.Chance(35) {
+		p.KillStepS = longSpan(r)
 	}
 	return p
 }
@@ -707,6 +741,7 @@ type epResult struct {
 	partInputs int
 	atFault    string // what the faulted node had made durable when the first cycle ended
 	fired    bool
+	stepped  bool // the wall clock was stepped when the targeted job was killed
 	jobs     int
 	killed   int
 	cycleErr string
@@ -808,6 +843,15 @@ func (w *c09world) episode(fp *faultPoint, twin *epResult) *epResult {
 				})
 			}
 		}
+		if family == "kill" && fp != nil && p.KillStepS > 0 {
+			pd.onKilled = func(j *jobRec) {
+				if j.idx == w.job {
+					// one machine, one wall clock: jobs started later inherit it
+					simrt.StepWall(pd.sn, time.Duration(p.KillStepS)*time.Second)
+					ep.stepped = true
+				}
+			}
+		}
 		if family == "podcrash" {
 			arm(pd.sn)
 		} else if fp != nil {
@@ -831,6 +875,7 @@ func (w *c09world) episode(fp *faultPoint, twin *epResult) *epResult {
 		recording = false
 		simrt.SetFSInjector(nil)
 		pd.onJob = nil
+		pd.onKilled = nil
 		if g := live[w.node]; g != nil {
 			ep.atFault = g.label() // the faulted node stopped here (kill / pod crash)
 		} else {
@@ -872,6 +917,16 @@ func (w *c09world) episode(fp *faultPoint, twin *epResult) *epResult {
 		if fp == nil {
 			for _, v := range w.judge(pd.dataDir, false, true, "after the fault-free first cycle", trk.mixedKeys) {
 				ep.verdicts = append(ep.verdicts, v)
+			}
+		}
+		if p.DownS > 0 {
+			// the pod is down (after a pod crash) or idle for days; nothing runs
+			d := time.Duration(p.DownS) * time.Second
+			if p.DownMode == "wallstep" {
+				simrt.StepWall(pd.sn, d)
+			} else {
+				simrt.Count("fault.long_downtime", 1)
+				simrt.AdvanceClock(d)
 			}
 		}
 		withLate := false
@@ -1051,10 +1106,43 @@ func (w *c09world) faultPoints(twin *epResult) []faultPoint {
 		return sel
 	}
 	if p.MaxPts > 0 && len(pts) > p.MaxPts {
-		// evenly spaced sample with a plan-chosen phase
+		// Sample: first one point of every phase of the job (what was durable
+		// before the point: the property quantifies over a kill "at each phase"),
+		// chosen by the plan among the points of that phase; the remaining slots
+		// are an evenly spaced sample of the other points with a plan-chosen
+		// offset. Phases with few storage operations (the input deletes) would
+		// otherwise often go unsampled next to the many operations of an upload.
+		taken := make([]bool, len(pts))
 		var sel []faultPoint
-		for k := 0; k < p.MaxPts; k++ {
-			sel = append(sel, pts[(p.PtSel+k*len(pts)/p.MaxPts)%len(pts)])
+		var labels []string
+		byLabel := map[string][]int{}
+		for i, pt := range pts {
+			if _, ok := byLabel[pt.Label]; !ok {
+				labels = append(labels, pt.Label)
+			}
+			byLabel[pt.Label] = append(byLabel[pt.Label], i)
+		}
+		if len(labels) <= p.MaxPts {
+			for k, l := range labels {
+				c := byLabel[l]
+				i := c[(p.PtSel+k)%len(c)]
+				taken[i] = true
+				sel = append(sel, pts[i])
+			}
+		}
+		var rest []faultPoint
+		for i, pt := range pts {
+			if !taken[i] {
+				rest = append(rest, pt)
+			}
+		}
+		if m := p.MaxPts - len(sel); m > 0 && len(rest) > 0 {
+			if m > len(rest) {
+				m = len(rest)
+			}
+			for k := 0; k < m; k++ {
+				sel = append(sel, rest[(p.PtSel+k*len(rest)/m)%len(rest)])
+			}
 		}
 		sort.Slice(sel, func(i, j int) bool { return sel[i].No < sel[j].No })
 		return sel
@@ -1081,6 +1169,19 @@ func familyWord(f string) string {
 		return "storage-error"
 	}
 	return "fault-free"
+}
+
+// clockWord names the clock circumstance of an episode for the rule id: a
+// defect that only shows when the wall clock is days ahead by the time the
+// fault is handled (a long downtime, or a forward step of the wall clock
+// before the next cycle or at the kill; "handling" = the parent settling a
+// dead job, or the next cycle with its manifest recovery) gets its own
+// fingerprint.
+func clockWord(p *C09Plan, ep *epResult) string {
+	if p.DownS >= daySeconds || (ep != nil && ep.stepped && p.KillStepS >= daySeconds) {
+		return ".next-handling-with-wall-clock-days-ahead"
+	}
+	return ""
 }
 
 func mixHash(h, v uint64) uint64 {
@@ -1128,7 +1229,7 @@ func runC09(planAny any, cfg simrt.Config) *simkit.Outcome {
 		return out
 	}
 	for _, v := range twin.verdicts {
-		out.Violate(ruleID(v, "fault-free"), "%s", v.msg)
+		out.Violate(ruleID(v, "fault-free"+clockWord(p, twin)), "%s", v.msg)
 	}
 	out.Stats["probe.jobs_fault_free"] += int64(twin.jobs)
 	if twin.jobs > 0 {
@@ -1193,7 +1294,7 @@ func runC09(planAny any, cfg simrt.Config) *simkit.Outcome {
 				// "<output>.part" staging file that a later job read as an input
 				label = "leftover-staging-part-file-compacted-as-input"
 			}
-			rule := ruleID(v, familyWord(p.Family)+"."+label)
+			rule := ruleID(v, familyWord(p.Family)+"."+label+clockWord(p, ep))
 			out.Violate(rule, "fault point %s (index %d in the %s window of node %s; durable before it: %s): %s", fp.Key, fp.Idx, p.Family, w.node, fp.Label, v.msg)
 		}
 		if len(ep.verdicts) > 0 {
@@ -1246,6 +1347,21 @@ func shrinkC09(planAny any) []any {
 		q.Second = 0
 		out = append(out, q)
 	}
+	if p.DownS > 0 {
+		q := cp()
+		q.DownS, q.DownMode = 0, ""
+		out = append(out, q)
+	}
+	if p.DownS > 0 && p.DownMode != "" {
+		q := cp()
+		q.DownMode = ""
+		out = append(out, q)
+	}
+	if p.KillStepS > 0 {
+		q := cp()
+		q.KillStepS = 0
+		out = append(out, q)
+	}
 	if p.Knobs.Daily {
 		q := cp()
 		q.Knobs.Daily = false
@@ -1291,5 +1407,6 @@ func descC09(planAny any) any {
 		}
 	}
 	return map[string]any{"files": len(p.Files), "rows": rows, "late_files": len(p.Late), "metadata": meta, "family": p.Family, "target_job": p.Job,
-		"knobs": p.Knobs, "age_hours": p.AgeHours, "later_cycles": p.Later, "gaps_s": p.GapS, "second_kill_permille": p.Second}
+		"knobs": p.Knobs, "age_hours": p.AgeHours, "later_cycles": p.Later, "gaps_s": p.GapS, "second_kill_permille": p.Second,
+		"down_s": p.DownS, "down_mode": p.DownMode, "kill_step_s": p.KillStepS}
 }
